@@ -159,6 +159,43 @@ Theorem C10_prefix_normalized_uniform_refuted : forall lo hi, lo + 2 <= hi ->
 Proof. exact normalized_ends_half. Qed.
 Print Assumptions C10_prefix_normalized_uniform_refuted.
 
+(* ------------------------------------------------ ConfigSpace path, dict hand-over, many calls ------------------------------------------------ *)
+(* Space.rvs on the ConfigSpace path / RandomSearch._ask: an ACTIVE sampled value is handed out unchanged - for EVERY value, the
+   falsy ones (0, 0.0, False, "") included; one entry per name, in container order *)
+Theorem C10_cs_point_active_value_unchanged : forall names specs conf i n v,
+  nth_error names i = Some n -> lookup_atom n conf = Some v ->
+  nth_error (cs_point names specs conf) i = Some (Some v) /\ length (cs_point names specs conf) = length names.
+Proof. exact (fun names specs conf i n v Hn Hv => conj (cs_point_active names specs conf i n v Hn Hv) (cs_point_length names specs conf)). Qed.
+Print Assumptions C10_cs_point_active_value_unchanged.
+
+(* an inactive hyperparameter carries the lower bound / first category - a member of the declared support *)
+Theorem C10_cs_point_inactive_value : forall names specs conf i n s a,
+  nth_error names i = Some n -> lookup_atom n conf = None -> specs n = Some s -> spec_valid s = true -> inactive_value s = Some a ->
+  nth_error (cs_point names specs conf) i = Some (Some a) /\ in_support s a = true.
+Proof.
+  exact (fun names specs conf i n s a Hn Hv Hs Hval Ha =>
+           conj (eq_trans (cs_point_inactive names specs conf i n s Hn Hv Hs) (f_equal Some Ha)) (inactive_value_in_support s a Hval Ha)).
+Qed.
+Print Assumptions C10_cs_point_inactive_value.
+
+(* the dictionary handed out (names zipped with the point) gives every name its own value when the names are the order the point
+   was built in; with a stale order (two names exchanged) the values are exchanged *)
+Theorem C10_to_dict_aligned : forall names specs conf n, In n names ->
+  lookup_opt n (to_dict names (cs_point names specs conf)) = Some (cs_value specs conf n).
+Proof. exact to_dict_aligned. Qed.
+Print Assumptions C10_to_dict_aligned.
+
+Theorem C10_to_dict_stale_names_refuted : forall specs conf a b, a <> b ->
+  lookup_opt a (to_dict [b; a] (cs_point [a; b] specs conf)) = Some (cs_value specs conf b).
+Proof. exact to_dict_stale. Qed.
+Print Assumptions C10_to_dict_stale_names_refuted.
+
+(* many calls on one Space / Optimizer / search object: the support clause of the union of the draws is the clause of every call *)
+Theorem C10_support_many_calls : forall s (chunks : list (list atom)),
+  (forall a, In a (concat chunks) -> in_support s a = true) <-> (forall c, In c chunks -> forall a, In a c -> in_support s a = true).
+Proof. exact support_chunks. Qed.
+Print Assumptions C10_support_many_calls.
+
 (* ------------------------------------------------------------------ oracles ------------------------------------------------------------------ *)
 Theorem C10_oracle_conversion : forall decls order dims, ok_conv decls order dims = true <-> ConvSpec decls order dims.
 Proof. exact ok_conv_spec. Qed.
@@ -233,3 +270,9 @@ Example C10_example_log_oracles :
   let pw := fun x : Q => if Qle_bool x 0 then 1%Q else if Qle_bool x 1 then 2%Q else 4%Q in
   q_int_log lg pw 1 4 0 = 1 /\ q_int_log lg pw 1 4 (1#2) = 2 /\ q_int_log lg pw 1 4 1 = 4.
 Proof. vm_compute. repeat split; reflexivity. Qed.
+
+(* falsy values survive the ConfigSpace path: names [3; 1; 2], hyperparameter 2 inactive *)
+Example C10_example_cs_point :
+  cs_point [3; 1; 2] (fun n => if n =? 2 then Some (SInt (-3) 3 false) else Some (SCats [ABool true; ABool false]))
+           [(1, ABool false); (3, AInt 0)] = [Some (AInt 0); Some (ABool false); Some (AInt (-3))].
+Proof. vm_compute. reflexivity. Qed.
